@@ -27,7 +27,10 @@ Vals == << "null", Q(""), Q("a"), Q("a*"), Q("?"), Q("/r/"), Q("/"), Q("*"), "5"
            "[{" \o Q("left") \o ":" \o Q("a") \o "," \o Q("operator") \o ":" \o Q("RANGE") \o "}]",
            "[{" \o Q("left") \o ":" \o Q("a") \o "," \o Q("operator") \o ":" \o Q("LIKE") \o "," \o Q("right") \o ":5}," \o Q("b") \o "]",
            "[" \o Q("a*") \o "," \o Q("/r/") \o ",{" \o Q("left") \o ":1," \o Q("operator") \o ":" \o Q("IN") \o "," \o Q("right") \o ":2}]",
-           Q("x\\\"min\\\":\\\"max\\\":") >>
+           Q("x\\\"min\\\":\\\"max\\\":"),
+           \* strings a careless slice, index or format verb trips over: one quote, two quotes, backslashes at the end / before a
+           \* wildcard, a percent sign, schema words, a slash, number look-alikes
+           Q("\\\""), Q("\\\"\\\""), Q("\\\\"), Q("foo*\\\\"), Q("a\\\\*b"), Q("/r\\\\/"), Q("%"), Q("a%sb"), Q("left"), Q("min"), Q("'"), Q("010"), Q("1e3"), Q(" "), Q("a b") >>
 Ops == << "AND", "OR", "EQUALS", "LIKE", "NOT", "RANGE", "MUST", "MUST_NOT", "BOOST", "FUZZY", "LITERAL", "WILD", "REGEXP",
           "GREATER", "LESS", "GREATER_EQ", "LESS_EQ", "IN", "LIST", "BOGUS", "", "and" >>
 Extras == << "", "," \o Q("distance") \o ":2", "," \o Q("distance") \o ":" \o Q("x"), "," \o Q("distance") \o ":null",
